@@ -11,7 +11,8 @@ Inductive nstmt :=
 | NOp (k : nat) (args : list (option nat))          (* None: an operand that is not a tensor (becomes a fresh constant tensor) *)
 | NView (k : nat) (par : nat)
 | NInplace (m : nat) (k : nat) (args : list (option nat)) (masked fails : bool)
-| NClear (t : nat).
+| NClear (t : nat)
+| NBackward (t : nat).                              (* t.backward(): gradients for everything upstream, then clear_graph *)
 
 Definition nth_id (names : list id) (i : nat) : option id := nth_error names i.
 
@@ -22,6 +23,36 @@ Fixpoint resolve (h : heap) (names : list id) (args : list (option nat)) : optio
   | Some i :: r => t <- nth_id names i ;; hr <- resolve h names r ;; Some (fst hr, t :: snd hr)
   | None :: r => let (h1, t) := new_leaf h in hr <- resolve h1 names r ;; Some (fst hr, t :: snd hr)
   end.
+(* the tensors [resolve] allocates are constants (Tensor(var, constant=True)) *)
+Definition fresh_consts (names ids : list id) : list id := filter (fun t => negb (mem t names)) ids.
+
+(* Tensor.backward() at pointer level, for a non-constant terminal whose graph is intact (the implementation raising
+   InvalidBackprop ends the compared history): collect_all_tensors_and_clear_grads visits everything upstream (not going
+   through constants), every non-constant tensor visited ends with a gradient, then clear_graph.  _view_grad is cleared for
+   the visited tensors; what reading .grad inside clear_graph caches afterwards is not followed (canon ignores _view_grad). *)
+Fixpoint collect (fuel : nat) (h : heap) (consts : list id) (t : id) (seen : list id) : list id :=
+  match fuel with
+  | 0 => seen
+  | S f =>
+    if mem t seen then seen else
+    let seen1 := seen ++ [t] in
+    if mem t consts then seen1 else
+    match getT h t with
+    | Some r => match t_creator r with
+                | Some c => match getO h c with
+                            | Some oc => fold_left (fun acc v => collect f h consts v acc) (o_vars oc) seen1
+                            | None => seen1 end
+                | None => seen1 end
+    | None => seen1
+    end
+  end.
+Definition backward_model (h : heap) (consts : list id) (t : id) : option heap :=
+  let fuel := S (length (h_t h) + length (h_o h)) in
+  let vis := collect (fuel * fuel) h consts t [] in
+  let h1 := fold_left (fun hh v => match getT hh v with
+                                   | Some r => setT hh v (with_grads r (negb (mem v consts)) false)
+                                   | None => hh end) vis h in
+  clear_graph fuel h1 t.
 
 Definition to_stmt (s : nstmt) (ids : list id) (names : list id) : option stmt :=
   match s with
@@ -30,6 +61,7 @@ Definition to_stmt (s : nstmt) (ids : list id) (names : list id) : option stmt :
   | NView k p => t <- nth_id names p ;; Some (SView k t)
   | NInplace m k _ masked fails => t <- nth_id names m ;; Some (SInplace t k ids masked fails)
   | NClear t => x <- nth_id names t ;; Some (SClear x)
+  | NBackward _ => None
   end.
 
 (* result: new heap, new name list, whether the statement raised *)
@@ -59,6 +91,20 @@ Definition nstep (h : heap) (names : list id) (s : nstmt) : option (heap * list 
     t <- nth_id names x ;;
     h' <- clear_graph (S (length (h_t h) + length (h_o h))) h t ;;
     Some (h', names, false)
+  | NBackward _ => None      (* needs the set of constant tensors: see nstep2 *)
+  end.
+
+(* state with the constants allocated so far *)
+Definition nstep2 (st : heap * list id * list id) (s : nstmt) : option (heap * list id * list id * bool) :=
+  let '(h, names, consts) := st in
+  match s with
+  | NBackward x => t <- nth_id names x ;; h' <- backward_model h consts t ;; Some (h', names, consts, false)
+  | NOp _ args | NInplace _ _ args _ _ =>
+    r <- nstep h names s ;;
+    let '(h', names', raised) := r in
+    hr <- resolve h names args ;;
+    Some (h', names', consts ++ fresh_consts names (snd hr), raised)
+  | _ => r <- nstep h names s ;; let '(h', names', raised) := r in Some (h', names', consts, raised)
   end.
 
 (* ------------------------------------------------------------------ canonical rendering *)
@@ -109,7 +155,7 @@ Definition render (h : heap) (order : list item) (x : item) : list nat :=
   match x with
   | IT t => match getT h t with
             | Some r => let ch := live order IT (lst_of h (t_children r)) in
-                        [0; onum order IO (t_creator r); onum order IT (t_base r); num order (IA (t_data r)); b2n (t_grad r); b2n (t_vgrad r); length ch]
+                        [0; onum order IO (t_creator r); onum order IT (t_base r); num order (IA (t_data r)); b2n (t_grad r); 0 (* _view_grad: not compared *); length ch]
                         ++ ch ++ sort (live order IO (set_of h (t_ops r)))
             | None => [99] end
   | IO o => match getO h o with
@@ -135,37 +181,37 @@ Fixpoint list_eqb {A} (e : A -> A -> bool) (a b : list A) : bool :=
 
 (* a case: statements with, for each, whether the implementation raised and the canonical rendering it produced afterwards;
    result: index of the first statement after which model and implementation differ (stuck model = differs) *)
-Fixpoint run_case (h : heap) (names : list id) (ss : list (nstmt * bool * list (list nat))) (i : nat) : option nat :=
+Fixpoint run_case (st : heap * list id * list id) (ss : list (nstmt * bool * list (list nat))) (i : nat) : option nat :=
   match ss with
   | [] => None
   | (s, raised, expect) :: r =>
-    match nstep h names s with
+    match nstep2 st s with
     | None => Some i
-    | Some (h', names', raised') =>
+    | Some (h', names', consts', raised') =>
       if Bool.eqb raised raised' && list_eqb (list_eqb Nat.eqb) (canon h' names') expect
-      then run_case h' names' r (S i) else Some i
+      then run_case (h', names', consts') r (S i) else Some i
     end
   end.
 
 Definition heap_case_ok (ss : list (nstmt * bool * list (list nat))) : bool :=
-  match run_case empty_heap [] ss 0 with None => true | Some _ => false end.
+  match run_case (empty_heap, [], []) ss 0 with None => true | Some _ => false end.
 Definition heap_case_first_bad (ss : list (nstmt * bool * list (list nat))) : nat :=
-  match run_case empty_heap [] ss 0 with None => 0 | Some i => S i end.
+  match run_case (empty_heap, [], []) ss 0 with None => 0 | Some i => S i end.
 
 (* the canonical rendering the model predicts after a history (for the harness's own diagnostics) *)
-Fixpoint model_canons (h : heap) (names : list id) (ss : list nstmt) : list (option (bool * list (list nat))) :=
+Fixpoint model_canons (st : heap * list id * list id) (ss : list nstmt) : list (option (bool * list (list nat))) :=
   match ss with
   | [] => []
-  | s :: r => match nstep h names s with
+  | s :: r => match nstep2 st s with
               | None => [None]
-              | Some (h', names', raised) => Some (raised, canon h' names') :: model_canons h' names' r
+              | Some (h', names', consts', raised) => Some (raised, canon h' names') :: model_canons (h', names', consts') r
               end
   end.
 
 (* nstep is Heap.step on the resolved statement (the operands that are not tensors having been allocated first) *)
 Lemma nstep_is_step h names s :
   match s with
-  | NLeaf => True
+  | NLeaf | NBackward _ => True
   | NOp _ args | NInplace _ _ args _ _ =>
     forall h1 ids, resolve h names args = Some (h1, ids) ->
     forall st, to_stmt s ids names = Some st ->
@@ -183,7 +229,7 @@ Lemma nstep_is_step h names s :
     end
   end.
 Proof.
-  destruct s as [|k args|k p|m k args masked fails|x]; cbn [nstep to_stmt step]; auto.
+  destruct s as [|k args|k p|m k args masked fails|x|x]; cbn [nstep to_stmt step]; auto.
   - intros h1 ids Hr st Hst. inversion Hst; subst; clear Hst. rewrite Hr. cbn [bind step].
     destruct (new_array h1 None None) as [h2 a]. destruct (apply_op h2 k ids [] a) as [[h3 t]|]; cbn; auto.
   - intros st Hst. destruct (nth_id names p) as [t|]; cbn in Hst; [|discriminate]. inversion Hst; subst; clear Hst.
